@@ -250,7 +250,7 @@ func TestC06(t *testing.T) {
 		rec.Note("small universe: %d of %d models (stride %d) under all DFS start orders (%d ordered builds)", n, total, stride, orders)
 	}
 	rapid.Check(t, func(rt *rapid.T) {
-		m := gen.GraphModel(rt, gen.GraphOpts{MultiThis: true, DupRestr: true, Interlock: true, Names: true, Deep: true, Depth3: true, SingleChild: true, NoRestr: true, Hazards: rapid.IntRange(0, 7).Draw(rt, "hz") == 0, CycleBoost: rapid.IntRange(0, 4).Draw(rt, "cb") == 0})
+		m := gen.GraphModel(rt, gen.GraphOpts{MultiThis: true, DupRestr: true, Interlock: true, Names: true, Deep: true, Depth3: true, SingleChild: true, NoRestr: true, Scale: true, SparseMeta: true, Hazards: rapid.IntRange(0, 7).Draw(rt, "hz") == 0, CycleBoost: rapid.IntRange(0, 4).Draw(rt, "cb") == 0})
 		in := c06Input{Model: m}
 		g0 := ref.Build(m)
 		if g0.Err == "" {
